@@ -24,6 +24,7 @@ class Machine:
         self.redundant_calls = 0
         self.orders_judged = 0
         self.late = {}
+        self.fail_due = {}
         self.n_ref = 0
 
     def on_event(self, env, head):
@@ -47,6 +48,11 @@ class Machine:
                 self.orders[op['target']]['disturbed'] = True
             if op['op'] == 'create_asset' and op.get('what') == 'processor':
                 self.late[out] = t
+            if op['op'] == 'fail' and op.get('target') in self.oper:
+                # schedule_failure(now): the failure is due at this very instant
+                self.fail_due[op['target']] = now
+        if failing in self.fail_due:
+            del self.fail_due[failing]
         if failing in self.orders:
             self.orders[failing]['disturbed'] = True
         # callback rounds of this event
@@ -212,6 +218,10 @@ class Machine:
                 if script_op['op'] == 'restore' and not was and not o:
                     ctx.report('restore_ignored', f'{p}: restore_functionality() at {now!r} left the machine down')
                     return
+            if was and not o and failing != p:
+                # a planned stop in the same instant pauses the pending FAIL event together with the machine's other
+                # events: it is then legitimately postponed by the length of the stop
+                self.fail_due.pop(p, None)
             self.oper[p] = o
             # -- default work order keeps the target down for exactly its duration -----------------
             od = self.orders.get(p)
@@ -240,6 +250,16 @@ class Machine:
                     if not cen.oper[did]:
                         ctx.report('work_order_restore', f'{did} is still down after end_work({tag}) at {now!r}')
                         return
+
+    def on_quiescent(self, env, t_next):
+        # a failure requested for the current instant (also while the machine is down for maintenance: events
+        # scheduled after the pause are not withheld) happens before the clock moves on
+        for p, t in self.fail_due.items():
+            self.ctx.report('failure_not_at_its_time', f'{p}: a failure was scheduled for {t!r} at {t!r} (machine '
+                            f'{"operational" if self.oper[p] else "down"}); the clock is about to leave {env.now!r} '
+                            f'and no failure has happened')
+            return
+        self.ctx.count('quiescent_points_without_an_overdue_failure')
 
     def features(self):
         return {'transitions': self.transitions, 'fail_with_part': self.fail_with_part,
